@@ -49,3 +49,28 @@ def c02_body(x: int) -> int:
     app.orchestrator.get_invocation_status(inv.invocation_id)
     _c02.BODY_LOG.append(("exit", inv.invocation_id, threading.get_ident()))
     return y
+
+
+# ---- C09 call trees ---------------------------------------------------------------------------
+def tree(spec: list) -> int:
+    """A node of a generated call tree.  `spec` is a JSON-able list of actions executed in order:
+    ["single", child] launch one child and wait for its result; ["group", [c1, ...]] launch the
+    children with `parallelize` and wait for all results; ["fanout", [c1, ...]] launch every child
+    singly first, then wait for each result in turn.  Returns the number of nodes of its subtree."""
+    from pynenc import context
+    from pynenc.identifiers.task_id import TaskId
+
+    app = context.get_current_app()
+    t = app.get_task(TaskId(__name__, "tree"))
+    total = 1
+    for kind, arg in spec:
+        if kind == "single":
+            total += t(arg).result
+        elif kind == "group":
+            total += sum(t.parallelize([(c,) for c in arg]).results)
+        elif kind == "fanout":
+            invs = [t(c) for c in arg]
+            total += sum(i.result for i in invs)
+        else:
+            raise ValueError(kind)
+    return total
